@@ -58,6 +58,7 @@ def specCell : View ν α → List Nat → Option Cell
   | .tensor id t, idx => some (id, ravel (lens t.shape) idx)
   | .matrix id m _ _, idx => some (id, ravel [m.rows, m.columns] idx)
   | .matrixOf s _ _, idx => s.specCell idx
+  | .tmap s, idx => s.specCell idx
   | .range s rs, idx => s.specCell (rangeCoords idx rs)
   | .mask s ms, idx => s.specCell (maskCoords idx ms)
   | .index s p, idx => s.specCell (selectCoords p idx)
@@ -137,6 +138,7 @@ def WF : View ν α → Prop
     t.data.length ≤ usizeMax
   | .matrix _ m r c => m.Inv ∧ r ≠ c ∧ m.data.length ≤ usizeMax
   | .matrixOf s r c => s.WF ∧ s.shape.length = 2 ∧ r ≠ c
+  | .tmap s => s.WF
   | .range s rs => s.WF ∧ RangesOK s.shape rs
   | .mask s ms => s.WF ∧ MasksOK s.shape ms
   | .index s p => s.WF ∧ ProvidedOK s.shape p
